@@ -327,13 +327,14 @@ fn x14_set_vring_addr() {   // NOT REGISTERED: exhausts memory in CBMC (io::Erro
 }
 
 // ------------------------------------------------------------------ C17: owning worker and event id (rank) — bounded: 3 queues, 2 workers, masks < 8
-hstubs! { #[kani::unwind(5)] fn c17_registration_rank_bounded() {
+macro_rules! rank_harness {
+    ($name:ident, $q:expr) => {
+hstubs! { #[kani::unwind(5)] fn $name() {
     let (m0, m1): (u64, u64) = (kani::any(), kani::any());
     kani::assume(m0 < 8 && m1 < 8);
     let kb = Arc::new(KB::new(3, 256, u64::MAX, vec![m0, m1]));
     let mut h = mk_handler(kb.clone(), 3);
-    let q: u8 = kani::any();
-    kani::assume(q < 3);
+    let q: u8 = $q;
     let v = &h.vrings[q as usize];
     v.set_queue_ready(true); v.set_enabled(true);
     v.set_kick(Some(unsafe { File::from_raw_fd(200) }));
@@ -356,3 +357,10 @@ hstubs! { #[kani::unwind(5)] fn c17_registration_rank_bounded() {
     }
     core::mem::forget(h); core::mem::forget(kb);
 }}
+    };
+}
+// bounded: 3 queues, 2 workers, every pair of masks < 8 (sparse, interleaved, overlapping, empty), one harness per kicked queue
+rank_harness!(c17_registration_rank_q0_bounded, 0);
+rank_harness!(c17_registration_rank_q1_bounded, 1);
+rank_harness!(c17_registration_rank_q2_bounded, 2);
+
